@@ -186,4 +186,20 @@ Definition poly_rhs (P : list (list (T O))) (t : T O) (y : list (T O)) : list (T
          add O (add O (add O (add O (add O (nthO p 0) (mul O (nthO p 1) t)) (mul O (nthO p 2) (mul O t t)))
                               (mul O (nthO p 3) yi)) (mul O (nthO p 4) (mul O t yi))) (mul O (nthO p 5) (mul O yi yn)))
       (combine (seq 0 (length P)) P).
+(* ---- the LAST GOOD MODEL of one solver step, executable (harness-side oracle, used when the source
+   is outside the translated subset and as a second opinion otherwise): the clamp of
+   DESolver._getdXdt (lower bound first, then upper bound: the upper bound wins when the bounds
+   cross, which is what lets the last step land on the end time), and the documented schemes on
+   list vectors *)
+Definition spec_clamp (dtmin dtmax d : T O) : T O :=
+  let d1 := if ltb O dtmin d then d else dtmin in if ltb O d1 dtmax then d1 else dtmax.
+Definition spec_euler_step (f : T O -> list (T O) -> list (T O)) (t : T O) (y : list (T O)) (h : T O) : list (T O) :=
+  lupdate y (f t y) h.
+Definition spec_rk4_step (f : T O -> list (T O) -> list (T O)) (t : T O) (y : list (T O)) (h : T O) : list (T O) :=
+  let h2 := dvd O h (ofZ O 2) in
+  let k1 := f t y in
+  let k2 := f (add O t h2) (lupdate y k1 h2) in
+  let k3 := f (add O t h2) (lupdate y k2 h2) in
+  let k4 := f (add O t h) (lupdate y k3 h) in
+  lupdate y (lsmul (dvd O (one O) (ofZ O 6)) (lvadd (lvadd (lvadd k1 (lsmul (ofZ O 2) k2)) (lsmul (ofZ O 2) k3)) k4)) h.
 End ListVec.
